@@ -42,7 +42,7 @@ class C05(CheckBase):
             self.ss = pw.SchemaSet()
             return
         defs = pw.schema_defs(seed, tier, self.n_generated[tier], label="pool",
-                              feature_overrides={"renamed_select": False, "renamed_enum": False})
+                              feature_overrides={"renamed_select": False, "renamed_enum": False, "optional_elems": False})
         self.ss = pw.build_schema_set(defs)
         if not self.ss.items:
             raise RuntimeError("no schema library could be built: %s" % self.ss.rejected)
